@@ -13,6 +13,11 @@ CHECKS = {
         "design_ref": "DESIGN.md §5.2",
         "note": "Trusted: the sandbox/seam code in vsim/child.py and runner.py; mypy/griffe internals are real code but their own address-dependent behaviour is outside the seams. The workload (generated packages rich in ties + the repo's three test packages) bounds which ties are exercised.",
     },
+    "C10": {
+        "text": "Seeded exploration at the file-system seam: for each package the real CLI runs under sampled working directories, source/output path spellings (relative, trailing slash, ./, detours, symlinked parents, not-yet-existing nested output), invocation styles, enumeration orders and both naming settings, plus one run per case with an injected I/O error or process death. From the complete mutation-event log and the final tree four clauses are judged: (1) every event on a stub/API path lies inside the resolved output directory and nothing appears elsewhere in the sandbox, also for failing/dying runs; (2) for every stub the directory spells the announced Python module path segment by segment and the base name is the module / the single re-exported declaration / the re-exported module alias; (3) no path is written twice with different texts, no append to a file not created in the same run; (4) the inventory is '<source-directory-name>__api.json'. Exploration evidence over the sampled trees and invocations.",
+        "design_ref": "DESIGN.md §5.3",
+        "note": "Trusted: the event log of vsim/child.py (io.open/os.open/os.mkdir/... seams) and the small header recogniser in vsim/oracles/c10.py (validated on the repo's corpus packages). Clause 2 is output-only: it relates each file's own header to its path, no model of the expected layout is built.",
+    },
     "C16": {
         "text": "Seeded histories on state that survives between operations. (a) After one real get_api the child drives 8-13 seeded operations (full generations with either naming flag, single-module renderings, module sequences in permuted order, writes, JSON dumps) against ONE live API model; after every operation api.to_dict() must equal its initial value, every generation must equal the reference generation from a pristine copy, every module text must be independent of what was rendered before, and members inlined from one private base into several public classes must be rendered identically. (b) Histories RUN;RUN, RUN(injected I/O error);RUN and RUN(process death at a stratified mutation event);RUN over one output directory: the final tree must equal, path for path and byte for byte, the tree of a single clean run. Exploration evidence, not proof.",
         "design_ref": "DESIGN.md §5.5",
